@@ -166,7 +166,9 @@ class Gen:
         nodes, actions = [], []
         while len(nodes) < n:
             cls = r.choice(classes) if nodes else r.choice(["Leaf", "Leaf", "Inner", "Bag", "Pre"])
-            nd = self.node(cls, list(range(len(nodes))))
+            # (a task that has not been submitted is refused as a value - /repo 0cc66af; submitted tasks and their
+            # outputs enter the graphs through "out" values)
+            nd = self.node(cls, [j for j in range(len(nodes)) if nodes[j]["cls"] not in TASKS])
             if nd is not None:
                 nodes.append(nd)
         cfgslots = lambda c: [s for s, k in SLOTS[c].items() if k == "ocfg"]
@@ -192,7 +194,8 @@ class Gen:
                         seen.add(m)
                         todo.extend(succ[m])
                 return seen
-            closing = [(i, j) for j in range(n) for i in reach(j) if i < j and cfgslots(nodes[i]["cls"])]
+            closing = [(i, j) for j in range(n) for i in reach(j) if i < j and cfgslots(nodes[i]["cls"])
+                       and nodes[j]["cls"] not in TASKS]
             for _ in range(r.choice([1, 1, 2, 3])):
                 if closing and r.random() < 0.7:
                     i, j = r.choice(closing)
@@ -200,8 +203,9 @@ class Gen:
                     continue
                 i = r.randrange(n)
                 ss = cfgslots(nodes[i]["cls"])
-                if ss:
-                    actions.append(dict(a="set", n=i, name=r.choice(ss), v=vref(r.randrange(i, n))))
+                tgt = [j for j in range(i, n) if nodes[j]["cls"] not in TASKS]
+                if ss and tgt:
+                    actions.append(dict(a="set", n=i, name=r.choice(ss), v=vref(r.choice(tgt))))
         # meta flags
         for i in range(n):
             if r.random() < p_meta / 2:
